@@ -13,8 +13,10 @@
    No theorem (see DESIGN.md section 9): absence of bias, the advertised RSE and the nominal coverage of the
    intervals over random item sets are statements about fitted constants and a real hash function. *)
 From Coq Require Import NArith ZArith Reals List.
+From Flocq Require Import Core.Raux.
 From Coq Require Import Floats.
-From DS Require Import Base.Prelude Base.FloatLemmas Model.Bounds Proofs.BoundsFloat Proofs.BoundsProofs.
+From DS Require Import Base.Prelude Base.FloatBits Base.FloatLemmas Model.Bounds Model.HllEst Proofs.BoundsFloat Proofs.BoundsProofs Proofs.BoundsCeil
+  Proofs.CouponSweepDefs Proofs.CouponSweep.
 Open Scope N_scope.
 
 (* ---- binary64 division, the engine of every bound: monotone in the dividend, antitone in a positive divisor,
@@ -39,14 +41,38 @@ Theorem c01_hll_bounds_tighten_with_k :
   fle (hll_upper (lgk + 1) ooo s est) (hll_upper lgk ooo s est).
 Proof. exact hll_bounds_tighten_with_k. Qed.
 
+(* ---- HLL in coupon mode (list / hash set; at most 196608 coupons for lg_k <= 21): for EVERY coupon count the
+        cubic-interpolation estimate is finite and at least the count, the bounds are ordered and nested, and even the
+        widest lower bound is at least the count.  [coupon_ok] spells this out as f64 comparisons (CouponSweepDefs.v);
+        the proof is an exhaustive kernel computation over the translated X_ARR / Y_ARR ---- *)
+Theorem c01_hll_coupon_mode_bounds :
+  forall len, len <= 196608 ->
+  let e := container_estimate len in
+  let l := fun s => container_lower_bound len s in
+  let u := fun s => container_upper_bound len s in
+  (PrimFloat.is_finite e && PrimFloat.leb (float_of_Z63 (Nz len)) e &&
+   PrimFloat.leb (l 3) (l 2) && PrimFloat.leb (l 2) (l 1) && PrimFloat.leb (l 1) e &&
+   PrimFloat.leb e (u 1) && PrimFloat.leb (u 1) (u 2) && PrimFloat.leb (u 2) (u 3) && PrimFloat.is_finite (u 3) &&
+   PrimFloat.leb (float_of_Z63 (Nz len)) (l 3))%bool = true.
+Proof. exact coupon_estimator_ok. Qed.
+
 (* ---- CPC (HIP and ICON estimators; lg_k 4..26): for every finite estimate that is at least the number of coupons.
-        [cf] is f64::ceil, of which only [ceil_spec] is used (x <= ceil x, monotone). ---- *)
+        cpc_upper rounds up with the model's f64::ceil (2^52 trick), which is proved to be the ceiling ---- *)
 Theorem c01_cpc_bounds_ordered_and_nested :
-  forall cf icon lgk c est, ceil_spec cf -> 4 <= lgk <= 26 -> 0 < c ->
+  forall icon lgk c est, 4 <= lgk <= 26 -> 0 < c ->
   fnn est -> fnn (u2f c) -> (FR (u2f c) <= FR est)%R ->
   chain7 (cpc_lower icon lgk c 3 est) (cpc_lower icon lgk c 2 est) (cpc_lower icon lgk c 1 est) est
-         (cpc_upper_with cf icon lgk c 1 est) (cpc_upper_with cf icon lgk c 2 est) (cpc_upper_with cf icon lgk c 3 est).
-Proof. exact cpc_bounds_nested. Qed.
+         (cpc_upper icon lgk c 1 est) (cpc_upper icon lgk c 2 est) (cpc_upper icon lgk c 3 est).
+Proof. exact (fun icon lgk c est => cpc_bounds_nested fceil icon lgk c est fceil_spec). Qed.
+
+(* f64::ceil as modelled: on every non-negative argument below 2^52 it is exactly the integer ceiling, above it the
+   identity (such numbers are integers), +infinity stays +infinity *)
+Theorem c01_ceil_is_ceiling :
+  forall x, fnn_inf x ->
+  (pinf x /\ fceil x = x) \/
+  (fnn x /\ (P52 <= FR x)%R /\ fceil x = x) \/
+  (fnn x /\ (FR x < P52)%R /\ fin (fceil x) /\ FR (fceil x) = IZR (Zceil (FR x))).
+Proof. exact fceil_cases. Qed.
 
 (* the hypothesis "estimate >= number of coupons" holds for both estimators:
    ICON by construction of icon_estimate ... *)
